@@ -319,7 +319,7 @@ pub fn strategy(g: &GenCfg) -> BoxedStrategy<Case> {
                 let pos = 1 + ((seed as usize * (len - 1)) >> 16);
                 actors[p].ops.insert(pos.min(len - 1), Op(SPAWN, c as u32, 0));
             }
-            Case { fam: "spawn".into(), workers, pool, feat, cfg: vec![nthreads], actors, sched }
+            Case { fam: "spawn".into(), workers, pool, feat, cfg: vec![nthreads], actors, sched, weak: 0 }
         })
         .boxed()
 }
